@@ -1,10 +1,12 @@
 import MpsVerif.Drv.Fifo
 import MpsVerif.Drv.Frame
 import MpsVerif.Drv.Mux
+import MpsVerif.Drv.Pipe
 
 def main (args : List String) : IO UInt32 := do
   match args with
   | ["fifo"] => Fifo.Drv.main; return 0
   | ["frame"] => Frame.Drv.main; return 0
   | ["mux"] => Mux.Drv.main; return 0
-  | _ => IO.eprintln s!"usage: drv <model>   (models: fifo)"; return 2
+  | ["pipe"] => Pipe.Drv.main; return 0
+  | _ => IO.eprintln s!"usage: drv <model>   (models: fifo, frame, mux, pipe)"; return 2
